@@ -224,6 +224,27 @@ def r3(ctx):
                 sites.append((f, c))
     ctx.ob("R3", len(sites) == 1 and sites[0][0] is it, "the transform is applied at exactly one site, in the common iteration path", func=it,
            sig="transform called in %s" % sorted(f.qual.split(".", 1)[1] for f, _ in sites))
+    # every other use of the transform value may only store or forward it
+    for f in ctx.proj.funcs_in_module("iterators") + [ctx.proj.func("create.create_db"), ctx.proj.func("create._DBCreator.__init__")]:
+        for n in ast.walk(f.node):
+            use = None
+            if isinstance(n, ast.Name) and n.id == "transform" and isinstance(n.ctx, ast.Load):
+                use = n
+            elif isinstance(n, ast.Attribute) and n.attr == "transform" and isinstance(n.ctx, ast.Load) and is_name(n.value, "self"):
+                use = n
+            if use is None:
+                continue
+            par = use._parent
+            applied = False
+            if isinstance(par, ast.Call) and par.func is use:
+                applied = f is not it            # called somewhere else than the one site
+            elif isinstance(par, ast.Call) and any(a is use for a in par.args):
+                applied = True                   # handed to map()/filter()/a helper as a positional argument
+            elif isinstance(par, ast.Starred):
+                applied = True
+            ok = not applied
+            ctx.ob("R3", ok, "outside the common iteration path the transform is only stored or forwarded, never applied", node=use, func=f,
+                   sig="%s: transform stored/forwarded" % f.name if ok else "%s uses the transform: %s" % (f.name, norm(getattr(par, "_parent", par)) [:70]), nontrivial=False)
     if not sites or sites[0][0] is not it:
         return
     f, c = sites[0]
